@@ -220,6 +220,16 @@ def sweep_slots(quick):
                 yield {"sweep": "slots", "spec": {"parts": [{"vols": vols}]}}
 
 
+def sweep_bigdir(quick):
+    """large volumes: n one-sector samples for n around powers of two, around the capacity of a one-sector file table (340
+    entries) and up to the 510 entries of a two-sector table"""
+    for n in (63, 64, 65, 127, 128, 129, 255, 256, 257, 339, 340, 341) + ((342, 400, 510) if not quick else (510,)):
+        dsec = 1 if n <= 340 else 2   # 340 entries + terminator fill one sector
+        files = [{"name": "S%03d" % k, "n": 20 + (k % 7), "chain": [3 + dsec + k], "seq": 1 + (k % 50), "rate": 44100 if k % 2 else 22050}
+                 for k in range(n)]
+        yield {"sweep": "bigdir", "spec": {"parts": [{"vols": [{"name": "BIG", "dir": list(range(3, 3 + dsec)), "files": files}]}]}}
+
+
 def nontrivial(spec):
     if len(spec["parts"]) > 1:
         return True
@@ -280,14 +290,15 @@ class Check(CheckBase):
             "volume type x directory storage, L/R pair, non-sample siblings, trailing bytes; (pairs) all pairs of "
             "single deviations; (names) 9 families of names using the non-letter characters of the AKAI set (. # + - digits "
             "blanks, 12 characters) x 4 volume names, judged by content only; (slots) every set of <=3 (thorough 4) occupied "
-            "volume-table slots out of {0,1,2,3,50,98,99} in both storage orders. non-trivial = non ascending-contiguous multi-sector chain, or file filling its last "
+            "volume-table slots out of {0,1,2,3,50,98,99} in both storage orders; (bigdir) volumes of 63..510 one-sector samples "
+            "(around powers of two and the 340-entry capacity of a one-sector file table). non-trivial = non ascending-contiguous multi-sector chain, or file filling its last "
             "sector exactly, or >1 partition/volume")
     assumptions = ["independent AKAI writer (mcv/gen/akai.py) and RIFF walker are correct",
                    "names are plain and collision-free here (collisions: C05/C06)"]
 
     def shards(self):
         cases = []
-        for sw in (sweep_length, sweep_slack, sweep_sizes, sweep_header, sweep_structure, sweep_pairs, sweep_alloc, sweep_names, sweep_slots):
+        for sw in (sweep_length, sweep_slack, sweep_sizes, sweep_header, sweep_structure, sweep_pairs, sweep_alloc, sweep_names, sweep_slots, sweep_bigdir):
             cases.extend(sw(self.quick))
         self._n = len(cases)
         return self.chunk(cases, 24)
